@@ -442,7 +442,7 @@ func runHist(sc *Scenario) *Outcome {
 			}
 		}
 	}
-	cfg := &verifrt.Config{Pool: sc.Pool, Monitor: or.monitor(), Panics: makePanics(sc)}
+	cfg := &verifrt.Config{Pool: sc.Pool, Monitor: or.monitor(), Panics: makePanics(sc), MaxYields: 8000000}
 	rep := verifrt.Run(cfg, []func(){body})
 	out.Rep = rep
 	out.Results = [][]Result{results}
